@@ -22,6 +22,7 @@ type vfTW struct {
 	cl    []*vfClient // one session per user
 	grp   string
 	names map[string]string // uid.UserId() -> "u0".."u3"
+	watch []*vfClient       // p2p model: second sessions of u0 and u1, attached to their 'me' topic only
 }
 
 type vfTWOpts struct {
